@@ -556,6 +556,8 @@ extern "C" int vf_sem_timedwait(sem_t* s, const struct timespec* ts)
 {
   if(!rt.active || !self) return 0;
   if(ts->tv_nsec < 0 || ts->tv_nsec >= 1000000000L) { vf_hit("timedwait_einval"); errno = EINVAL; return -1; }
+  // environment deviation: a signal handler ran while the caller would have been blocked (POSIX: EINTR, the count is untouched)
+  if(vf_config.spurious && getSem(s, "wait")->count == 0 && vf_env_choice(2) == 1) { vf_hit("eintr_delivered"); errno = EINTR; return -1; }
   return sem_wait_common(s, (long long)ts->tv_sec * 1000000000LL + ts->tv_nsec);
 }
 extern "C" int vf_sem_trywait(sem_t* s)
